@@ -38,7 +38,9 @@ MANIFEST = {
              "is stated but its assembly through the zipped rows is not proved (covered by exact correspondence on real files). "
              "Dataslate: the record of a selected series is its own column min(v, k-1) on the span, NaN for absent names, other "
              "frequencies are rejected, fallbacks change NaN cells only, overwrites all cells, only for declared names, clipping keeps "
-             "exactly the base columns. Databox operations (rename, remove, keep, copy, overlay, underlay, clip, prepend, merge): every "
+             "exactly the base columns; removing periods from the start / end of a dataslate drops exactly the base periods that "
+             "were removed. Explicitly selected export periods (any order or step) are written next to the series' own rows. "
+             "Databox operations (rename, remove, keep, copy, overlay, underlay, clip, prepend, merge): every "
              "operation and every sequence of operations (induction) leaves all entries outside the operations' selected names "
              "identical and in order. The model is tied to the code on every run by exact comparison of the parsed CSV grid, the "
              "re-imported databox, dataslate arrays and one-step databox operations (symbolic series terms evaluated with the real "
@@ -243,11 +245,30 @@ def canon_grid(rows: list[list[str]], nh: int) -> str:
     return ";".join(out)
 
 
-def impl_csv(db: Databox, desc_row: bool, tmpdir: str, tag: str, delimiter: str = ","):
+LETTER_FREQ = {v: k for k, v in FREQ_LETTER.items()}
+
+
+def export_options(case) -> dict:
+    """the non-default selection options of `to_csv_file` of a case: span=, frequency_span=, names="""
+    kw = {}
+    if case.get("span"):
+        kw["span"] = [period(case["span"]["f"], t) for t in case["span"]["periods"]]
+    if case.get("fspan") is not None:
+        kw["frequency_span"] = {LETTER_FREQ[f]: (... if ps is None else [period(f, t) for t in ps]) for f, ps in case["fspan"]}
+    if case.get("names") is not None:
+        kw["names"] = list(case["names"])
+    return kw
+
+
+def has_options(case) -> bool:
+    return bool(case.get("span")) or case.get("fspan") is not None or case.get("names") is not None
+
+
+def impl_csv(db: Databox, desc_row: bool, tmpdir: str, tag: str, delimiter: str = ",", options: dict | None = None):
     """(canonical line, re-imported databox or exception)"""
     path = os.path.join(tmpdir, f"{tag}.csv")
     kw = {} if delimiter == "," else {"delimiter": delimiter}
-    db.to_csv_file(path, description_row=desc_row, when_empty="silent", **kw)
+    db.to_csv_file(path, description_row=desc_row, when_empty="silent", **kw, **(options or {}))
     with open(path, "rt", encoding="utf-8-sig", newline="") as fid:
         rows = list(csv.reader(fid, delimiter=delimiter))
     grid = canon_grid(rows, 2 if desc_row else 1)
@@ -260,8 +281,68 @@ def impl_csv(db: Databox, desc_row: bool, tmpdir: str, tag: str, delimiter: str 
     return grid + " # " + imp, back
 
 
-def csv_request(db: Databox, desc_row: bool) -> str:
-    return "csv " + ("1" if desc_row else "0") + "".join(" " + enc_item(k, v, ROUND) for k, v in db.items())
+def csv_request(db: Databox, desc_row: bool, case=None) -> str:
+    items = "".join(" " + enc_item(k, v, ROUND) for k, v in db.items())
+    if case is None or not has_options(case):
+        return "csv " + ("1" if desc_row else "0") + items
+    if case.get("span"):
+        fs = "span:" + case["span"]["f"] + "=" + ",".join(str(t) for t in case["span"]["periods"])
+    elif case.get("fspan") is not None:
+        fs = "fs:" + ";".join(f + "=" + ("*" if ps is None else ",".join(str(t) for t in ps)) for f, ps in case["fspan"])
+    else:
+        fs = "*"
+    ns = "*" if case.get("names") is None else "n=" + ",".join(enc(n) for n in case["names"])
+    return "csvx " + ("1" if desc_row else "0") + " " + fs + " " + ns + items
+
+
+def oracle_csv_selected(ctx: Ctx, db: Databox, desc_row: bool, back, case):
+    """export of a selection (span=, frequency_span=, names=): for every selected series and every selected period the file read
+    back holds the value the series has in that very period (to the rounding), NaN in the periods that were not selected;
+    names, frequencies, variant counts and descriptions as in the input"""
+    ctx.evaluations += 1
+    if isinstance(back, Exception):
+        ctx.fail("csv-selection", case, f"from_csv_file raised {back!r}")
+        return
+    names = [n for n in (case["names"] if case.get("names") is not None else db.keys()) if n in db and isinstance(db[n], Series)]
+    if case.get("span"):
+        sel = {case["span"]["f"]: list(case["span"]["periods"])}
+    elif case.get("fspan") is not None:
+        sel = {f: ps for f, ps in case["fspan"]}
+    else:
+        sel = {f: None for f in ["Y", "H", "Q", "M", "D", "I", "U"]}
+    want = {n: db[n] for n in names if freq_letter(db[n]) in sel}
+    if set(back.keys()) != set(want.keys()):
+        ctx.fail("csv-selection", case, f"selected series {sorted(want)} read back {sorted(back.keys())}")
+        return
+    for n, s in want.items():
+        t = back[n]
+        f = freq_letter(s)
+        if t.data.shape[1] != s.data.shape[1]:
+            ctx.fail("csv-selection", case, f"{n!r}: {s.data.shape[1]} variants -> {t.data.shape[1]}"); continue
+        if desc_row and t.data.shape[0] and (t.get_description() or "") != (s.get_description() or ""):
+            ctx.fail("csv-selection", case, f"{n!r}: description {s.get_description()!r} -> {t.get_description()!r}")
+        if f == "U":
+            continue
+        if t.data.shape[0] and t.frequency != s.frequency:
+            ctx.fail("csv-selection", case, f"{n!r}: frequency {s.frequency.name} -> {t.frequency.name}"); continue
+        peers = [v for v in want.values() if freq_letter(v) == f]
+        lo = min(start_serial(v) for v in peers); hi = max(start_serial(v) + v.data.shape[0] - 1 for v in peers)
+        chosen = list(range(lo, hi + 1)) if sel[f] is None else list(sel[f])
+        probe = sorted(set(chosen) | set(range(min(chosen + [lo]) - 1, max(chosen + [hi]) + 2)))
+        def cell(x: Series, p, j):
+            r = p - start_serial(x)
+            return x.data[r, j] if x.data.shape[0] and 0 <= r < x.data.shape[0] else np.nan
+        for p in probe:
+            for j in range(s.data.shape[1]):
+                a = cell(s, p, j) if p in chosen else np.nan
+                b = cell(t, p, j)
+                ok = (a != a and b != b) or (a == b) or (math.isfinite(a) and abs(a - b) <= 0.5 * 10.0 ** -ROUND + 4e-16 * abs(a))
+                if not ok:
+                    ctx.fail("csv-selection", case, f"{n!r} period {f}:{p} variant {j}: the series has {a!r}"
+                                                    f"{'' if p in chosen else ' (period not selected)'}, the file read back has {b!r}")
+                    return
+    if want and (case.get("span") or case.get("fspan") is not None):
+        ctx.nontriv(("csv-selection", "span" if case.get("span") else "fspan", case.get("names") is not None, len(want) > 1))
 
 
 def trimmed_view(s: Series):
@@ -368,14 +449,20 @@ def run_csv_cases(ctx: Ctx, cases: list, stream="csv"):
         reqs, impls = [], []
         for i, (db, desc_row, case) in enumerate(cases):
             try:
-                line, back = impl_csv(db, desc_row, tmpdir, f"f{i}", case.get("delimiter", ","))
+                line, back = impl_csv(db, desc_row, tmpdir, f"f{i}", case.get("delimiter", ","), export_options(case))
             except Exception as e:
                 line, back = "export-raises " + err_kind(e), e
                 ctx.fail("csv-export-raises", case, f"to_csv_file raised {e!r}")
-                reqs.append(csv_request(db, desc_row)); impls.append(line)
+                reqs.append(csv_request(db, desc_row, case)); impls.append(line)
                 continue
-            reqs.append(csv_request(db, desc_row)); impls.append(line)
-            oracle_csv(ctx, db, desc_row, back, case)
+            reqs.append(csv_request(db, desc_row, case)); impls.append(line)
+            if has_options(case):
+                oracle_csv_selected(ctx, db, desc_row, back, case)
+                ctx.count("csv_selection_" + ("span" if case.get("span") else "frequency_span" if case.get("fspan") is not None else "names"))
+                if case.get("span"):
+                    ctx.count("csv_span_shape_" + case["span"].get("shape", "other"))
+            else:
+                oracle_csv(ctx, db, desc_row, back, case)
             for v in db.values():
                 if isinstance(v, Series):
                     ctx.count("csv_series_freq_" + freq_letter(v)); ctx.count(f"csv_series_variants_{v.data.shape[1]}")
@@ -397,7 +484,59 @@ def gen_csv_cases(ctx: Ctx, n: int, tag="csv"):
         db = gen_csv_box(rng)
         desc_row = rng.chance(0.5)
         delim = rng.weighted([(",", 9), (";", 0.7), ("\t", 0.3)])
-        out.append((db, desc_row, {"kind": "csv", "sub": i, "desc_row": desc_row, "delimiter": delim, "box": describe_box(db)}))
+        case = {"kind": "csv", "sub": i, "desc_row": desc_row, "delimiter": delim, "box": describe_box(db)}
+        case.update(gen_export_selection(rng, db))
+        out.append((db, desc_row, case))
+    return out
+
+
+def gen_period_selection(rng, lo: int, hi: int):
+    """(shape, periods): selections of periods around [lo, hi] that are and are not ascending consecutive runs"""
+    a, b = lo - rng.randint(0, 2), hi + rng.randint(0, 2)
+    shape = rng.weighted([("consecutive", 2), ("step", 3), ("descending", 3), ("picked", 3), ("repeated", 1), ("outside", 0.5)])
+    if shape == "consecutive":
+        x = rng.randint(a, b); ps = list(range(x, rng.randint(x, b) + 1))
+    elif shape == "step":
+        ps = list(range(a, b + 1, rng.randint(2, 3))) or [a]
+    elif shape == "descending":
+        ps = list(range(b, a - 1, -rng.randint(1, 2)))
+    elif shape == "picked":
+        pool = list(range(a, b + 1)); ps = rng.sample(pool, rng.randint(1, min(5, len(pool))))
+    elif shape == "repeated":
+        ps = [a, a, a + 1]
+    else:
+        ps = [b + 3, b + 4]
+    return shape, ps
+
+
+def gen_export_selection(rng, db: Databox) -> dict:
+    """options of to_csv_file that select what is written: span=, frequency_span=, names="""
+    ser = {n: v for n, v in db.items() if isinstance(v, Series) and v.data.shape[0]}
+    out = {}
+    k = rng.weighted([("default", 6), ("span", 3), ("fspan", 1.2)])
+    if not ser:
+        return out
+    rng_of = {}
+    for v in ser.values():
+        f = freq_letter(v); lo, hi = start_serial(v), start_serial(v) + v.data.shape[0] - 1
+        rng_of[f] = (min(lo, rng_of.get(f, (lo, hi))[0]), max(hi, rng_of.get(f, (lo, hi))[1]))
+    if k == "span":
+        f = rng.choice(sorted(rng_of))
+        shape, ps = gen_period_selection(rng, *rng_of[f])
+        out["span"] = {"f": f, "periods": ps, "shape": shape}
+    elif k == "fspan":
+        fs = rng.sample(sorted(rng_of), rng.randint(1, len(rng_of)))
+        if rng.chance(0.3):
+            fs.append("U")
+        ent = []
+        for f in fs:
+            ent.append([f, None if (f == "U" or rng.chance(0.4)) else gen_period_selection(rng, *rng_of[f])[1]])
+        out["fspan"] = ent
+    if rng.chance(0.15):
+        names = [n for n in db.keys() if rng.chance(0.7)] + (["zz_missing"] if rng.chance(0.3) else [])
+        rng.shuffle(names)
+        if any(isinstance(db.get(n), Series) and db[n].data.shape[0] for n in names):
+            out["names"] = names
     return out
 
 
@@ -564,6 +703,160 @@ def run_slate_cases(ctx: Ctx, cases):
         if i < 1:
             ctx.sample({"stream": "slate", "case": c, "implementation": line[:300]})
     ctx.compare("slate", cases, impls, ctx.model("C19", reqs))
+
+
+# --- sequences of period operations on one dataslate -----------------------------------------------------------------
+
+def gen_slateops_case(rng):
+    """a dataslate as a model with lags/leads needs it (presample before, terminal periods after the base span), then a sequence of
+    remove_initial / remove_terminal / remove_periods_from_start|end / add_periods_to_end on that one object"""
+    for _ in range(50):
+        c = gen_slate_case(rng)
+        db = box_from_description(c["box"])
+        if all((not isinstance(v, Series)) or (not v.data.shape[0]) or freq_letter(v) == c["f"] for v in db.values()):
+            break
+    c["kind"] = "slateops"
+    c["len"] = ln = rng.randint(3, 10)
+    k = rng.weighted([(0, 1), (1, 3), (2, 3), (3, 1)])           # presample periods
+    m = rng.weighted([(0, 3), (1, 3), (2, 1)])                    # terminal periods
+    k, m = min(k, ln - 1), min(m, max(0, ln - 1 - k))
+    if rng.chance(0.75):
+        base = list(range(k, ln - m))                             # the base span of a model with max lag k, max lead m
+    else:
+        base = sorted(rng.sample(range(ln), rng.randint(1, ln)))
+    c["base"] = base
+    c["shifts"] = [-k, m]
+    c["clip"] = c["clip"] and bool(base)
+    ops, cur = [], ln
+    for _ in range(rng.randint(1, 4)):
+        o = rng.weighted([("ri", 4), ("rt", 2), ("rs", 4), ("re", 3), ("ae", 2)])
+        if o == "ri" and cur - k >= 1:
+            ops.append("ri"); cur -= k
+        elif o == "rt" and cur - m >= 1:
+            ops.append("rt"); cur -= m
+        elif o == "rs":
+            n = rng.choice([0, 1, 1, 2, k, k, k + 1]); n = min(n, cur - 1); ops.append(f"rs:{n}"); cur -= n
+        elif o == "re":
+            n = rng.choice([0, 1, 2, m, m]); n = min(n, cur - 1); ops.append(f"re:{n}"); cur -= n
+        elif o == "ae":
+            n = rng.randint(0, 3); ops.append(f"ae:{n}"); cur += n
+    c["ops"] = ops
+    return c
+
+
+def slateops_request(c) -> str:
+    base = slate_request(c).split(" ")
+    return " ".join(["slateops"] + base[1:] + [str(c["shifts"][0]), str(c["shifts"][1]), ",".join(c["ops"]) or "-"])
+
+
+def _slate_state(ds) -> str:
+    ps = [int(p.serial) for p in ds.periods]
+    inv = ds._invariant
+    return f"{ps[0] if ps else '-'},{len(ps)},[{', '.join(str(i) for i in inv.base_columns)}],[{', '.join(str(int(p.serial)) for p in inv.base_periods)}]"
+
+
+def impl_slateops(ctx: Ctx, c):
+    """runs the sequence on the real object; the oracle is evaluated after every step"""
+    db = box_from_description(c["box"])
+    span = [period(c["f"], c["start"] + i) for i in range(c["len"])]
+    kw = {"min_max_shift": tuple(c["shifts"])}
+    if c["base"]:
+        kw["base_columns"] = tuple(c["base"])
+    try:
+        ds = Dataslate.from_databox(db, c["names"], span, num_variants=c["nvar"], fallbacks=dict(c["fallbacks"]) or None,
+                                    overwrites=dict(c["overwrites"]) or None, clip_data_to_base_span=c["clip"], **kw)
+    except Exception as e:
+        return err_kind(e)
+    ctx.evaluations += 1
+    # what the property is about: value of (name row, period, variant) as converted, and the base periods as declared
+    original = {}
+    for v in range(ds.num_variants):
+        a = ds.get_data_variant(v)
+        for r in range(a.shape[0]):
+            for i, p in enumerate(ds.periods):
+                original[(v, r, int(p.serial))] = a[r, i]
+    base0 = [int(p.serial) for p in ds._invariant.base_periods]
+    states = [_slate_state(ds)]
+    alive = {int(p.serial) for p in ds.periods}       # periods converted from the databox and never removed since
+    failed = False
+    def fail(site, msg):
+        nonlocal failed
+        if not failed:
+            ctx.fail(site, c, msg)
+        failed = True
+    for k, o in enumerate(c["ops"]):
+        try:
+            if o == "ri": ds.remove_initial()
+            elif o == "rt": ds.remove_terminal()
+            elif o.startswith("rs:"): ds.remove_periods_from_start(int(o[3:]))
+            elif o.startswith("re:"): ds.remove_periods_from_end(int(o[3:]))
+            else: ds.add_periods_to_end(int(o[3:]))
+        except Exception as e:
+            fail("slate-period-op-raises", f"step {k} {o} raised {e!r}")
+            return err_kind(e)
+        states.append(_slate_state(ds))
+        ps = [int(p.serial) for p in ds.periods]
+        alive &= set(ps)
+        after = f"after {', '.join(c['ops'][:k + 1])}"
+        if ps != list(range(ps[0], ps[0] + len(ps))) if ps else False:
+            fail("slate-periods", f"{after}: the periods of the dataslate are not consecutive: {ps}")
+        for v in range(ds.num_variants):
+            a = ds.get_data_variant(v)
+            if a.shape[1] != len(ps):
+                fail("slate-periods", f"{after}: {len(ps)} periods but {a.shape[1]} data columns"); break
+            for r in range(a.shape[0]):
+                for i, p in enumerate(ps):
+                    x = original.get((v, r, p), np.nan) if p in alive else np.nan
+                    if not same(x, a[r, i]):
+                        fail("slate-data-after-period-op", f"{after}: row {r} period {p} variant {v}: was {x!r}, is {a[r, i]!r}")
+        want_base = [p for p in base0 if p in alive]
+        got_base = [int(p.serial) for p in ds._invariant.base_periods]
+        if got_base != want_base or ds.num_base_periods != len(want_base):
+            fail("slate-base-span", f"{after}: base periods {got_base}, but the declared base periods still in the dataslate are {want_base}")
+    vs = ";".join(enc_rows(ds.get_data_variant(v)) for v in range(ds.num_variants)) or "-"
+    outs = []
+    for sp in ("full", "base"):
+        try:
+            out = ds.to_databox(span=sp, trim=c["trim"])
+            outs.append(";".join(show_series(k, v) for k, v in out.items()) if len(out) else "-")
+        except Exception as e:
+            out = e; outs.append(err_kind(e))
+        # to_databox(span=...) returns the converted values on that span
+        if not isinstance(out, Exception) and not failed:
+            ps = [int(p.serial) for p in ds.periods]
+            got_base = [int(p.serial) for p in ds._invariant.base_periods]
+            window = ps if sp == "full" else (list(range(got_base[0], got_base[-1] + 1)) if got_base else [])
+            names = list(ds.names)
+            for r, n in enumerate(names):
+                if names.index(n) != r and n in names[r + 1:]:
+                    continue
+                s = out[n]
+                rr = max(i for i, m in enumerate(names) if m == n)      # a repeated name is bound to its last record
+                for v in range(ds.num_variants):
+                    for p in window:
+                        x = original.get((v, rr, p), np.nan) if p in alive else np.nan
+                        q = p - start_serial(s)
+                        y = s.data[q, v] if s.data.shape[0] and 0 <= q < s.data.shape[0] else np.nan
+                        if not same(x, y):
+                            fail("slate-roundtrip-" + sp, f"to_databox(span={sp!r}) after {', '.join(c['ops'])}: {n!r} period {p} variant {v}: "
+                                                           f"converted value {x!r}, returned {y!r}")
+    if c["base"] and c["base"][0] > 0 and any(o in ("ri",) or o.startswith("rs:") for o in c["ops"]):
+        ctx.nontriv(("slateops", c["f"], tuple(o.split(":")[0] for o in c["ops"]), c["base"][0]))
+    return ";".join(states) + " # " + vs + " # " + outs[0] + " # " + outs[1]
+
+
+def run_slateops_cases(ctx: Ctx, cases):
+    reqs, impls = [], []
+    for i, c in enumerate(cases):
+        impls.append(impl_slateops(ctx, c)); reqs.append(slateops_request(c))
+        for o in c["ops"]:
+            ctx.count("slateop_" + o.split(":")[0])
+        ctx.count("slateops_sequences")
+        if c["base"] and c["base"][0] > 0:
+            ctx.count("slateops_with_presample")
+        if i < 1:
+            ctx.sample({"stream": "slateops", "case": c, "implementation": impls[-1][:300]})
+    ctx.compare("slateops", cases, impls, ctx.model("C19", reqs))
 
 
 class _FakeSlatable:
@@ -1211,6 +1504,8 @@ def run_case(ctx: Ctx, case):
         run_csv_cases(ctx, [(db, bool(case["desc_row"]), case)], stream="replay-csv")
     elif k == "slate":
         run_slate_cases(ctx, [case])
+    elif k == "slateops":
+        run_slateops_cases(ctx, [case])
     elif k == "ops":
         run_op_sequences(ctx, 0, seqs=[{"box": case["box"], "ops": case["ops"]}])
     elif k == "ext":
@@ -1227,6 +1522,8 @@ def run(ctx: Ctx):
     run_csv_cases(ctx, gen_csv_cases(ctx, ctx.n(500, 12000)))
     rng = ctx.rng.fork("slate")
     run_slate_cases(ctx, [gen_slate_case(rng.fork(i)) for i in range(ctx.n(700, 15000))])
+    rng = ctx.rng.fork("slateops")
+    run_slateops_cases(ctx, [gen_slateops_case(rng.fork(i)) for i in range(ctx.n(400, 8000))])
     run_ext_cases(ctx, ctx.n(200, 3000))
     run_op_sequences(ctx, ctx.n(500, 12000))
 
@@ -1243,6 +1540,8 @@ def search(ctx: Ctx, seeds):
     run_csv_cases(ctx, gen_csv_cases(ctx, 1500, tag="search-csv"))
     rng = ctx.rng.fork("search-slate")
     run_slate_cases(ctx, [gen_slate_case(rng.fork(i)) for i in range(1500)])
+    rng = ctx.rng.fork("search-slateops")
+    run_slateops_cases(ctx, [gen_slateops_case(rng.fork(i)) for i in range(1500)])
     run_ext_cases(ctx, 300)
     run_op_sequences(ctx, 1500, tag="search-ops")
 
